@@ -274,6 +274,10 @@ func (srv *server) Status() int32 {
 
 func (srv *server) sessionTerminatedLocked(clientID string, reason SessionTerminatedReason) (err error) {
 	err = srv.removeSessionLocked(clientID)
+	// a will that is still waiting for its delay is published now that the session has ended [MQTT-3.1.3-9]
+	if w, ok := srv.willMessage[clientID]; ok {
+		w.signal(true)
+	}
 	if srv.hooks.OnSessionTerminated != nil {
 		srv.hooks.OnSessionTerminated(context.Background(), clientID, reason)
 	}
